@@ -6,40 +6,44 @@
      "close_call" a | "close_ret" a out                 out in {"returned", "busy"};  listening = some listener still open
      "tstart_call" a | "tstart_ret" a                    NetworkServerThread(server).start()
      "probe" serving listening                          a quiescent observation (nothing is in flight)
+     "svc_init" | "svc_down"                            the handler's service_init registered its tear-down / that tear-down ran
      "end"                                              every call has returned
    Laws: one serving call at a time, a concurrent one is refused with ServerAlreadyRunning and only then; a server whose
    close returned refuses with ServerClosedError, and ServerClosedError needs a close; shutdown returns only when serving has
    stopped; after a returned close no listener is open and nothing serves at the next quiescent point; every call returns.  *)
 EXTENDS Naturals, Sequences, FiniteSets, TLC, Json, IOUtils
 Traces == JsonDeserialize(IOEnv.TRACE_FILE)
-VARIABLES tid, l, owner, phase, refused, closeSeen, closeReturned, pending, bornClosed, stopped, finishing, gen, starget
+VARIABLES tid, l, owner, phase, refused, closeSeen, closeReturned, pending, bornClosed, stopped, finishing, gen, starget, stopReq, svc
 \* owner: actor whose serve_forever call is the active one (0: none); phase: "idle" | "setup" | "up"
 \* refused: serve calls issued while another one was active; bornClosed: serve calls issued after a close had returned
 \* stopped: the active serve call has been declared over by a shutdown() that returned (its own return may not be logged yet)
 \* finishing: serve calls superseded that way, whose return is still to be logged
 \* gen: number of serve calls that became the active one so far; starget[a]: value of gen when actor a called shutdown() (0: nothing was active)
-vars == <<owner, phase, refused, closeSeen, closeReturned, pending, bornClosed, stopped, finishing, gen, starget>>
+\* stopReq: a shutdown() / server_close() call has been in flight at some moment since the active serve call was issued
+\* svc: service tear-downs registered by service_init and not run yet
+vars == <<owner, phase, refused, closeSeen, closeReturned, pending, bornClosed, stopped, finishing, gen, starget, stopReq, svc>>
 T == Traces[tid]
 Ev == T.events[l]
 TInit == /\ tid \in 1..Len(Traces) /\ l = 1 /\ owner = 0 /\ phase = "idle" /\ refused = {} /\ closeSeen = FALSE /\ closeReturned = FALSE
-         /\ pending = {} /\ bornClosed = {} /\ stopped = FALSE /\ finishing = {} /\ gen = 0 /\ starget = <<>>
+         /\ pending = {} /\ bornClosed = {} /\ stopped = FALSE /\ finishing = {} /\ gen = 0 /\ starget = <<>> /\ stopReq = FALSE /\ svc = 0
 IsEvent(e) == l <= Len(T.events) /\ Ev.ev = e /\ l' = l + 1 /\ UNCHANGED tid
 Call(k) == <<k, Ev.a>>
 \* once a shutdown() has returned, serving has fully stopped: a new serve_forever() is not "concurrent" with the call that was shut down
 ServeCall == /\ IsEvent("serve_call") /\ pending' = pending \cup {Call("serve")}
              /\ IF owner # 0 /\ ~stopped
-                THEN refused' = refused \cup {Ev.a} /\ UNCHANGED <<owner, phase, bornClosed, stopped, finishing, gen, starget>>
+                THEN refused' = refused \cup {Ev.a} /\ UNCHANGED <<owner, phase, bornClosed, stopped, finishing, gen, starget, stopReq>>
                 ELSE /\ owner' = Ev.a /\ phase' = "setup" /\ UNCHANGED <<refused, starget>> /\ stopped' = FALSE /\ gen' = gen + 1
+                     /\ stopReq' = (\E c \in pending : c[1] \in {"shutdown", "close"})
                      /\ finishing' = (IF owner # 0 THEN finishing \cup {owner} ELSE finishing)
                      /\ bornClosed' = (IF closeReturned THEN bornClosed \cup {Ev.a} ELSE bornClosed)
-             /\ UNCHANGED <<closeSeen, closeReturned>>
+             /\ UNCHANGED <<closeSeen, closeReturned, svc>>
 \* Two serve_forever calls that are in flight together race for the server's locks: the order of the "serve_call" events does not decide
 \* the winner.  As long as the presumed owner has not come up, a call presumed refused may turn out to be the one that serves.
 Up == /\ IsEvent("up") /\ phase = "setup"
       /\ \/ owner = Ev.a /\ UNCHANGED <<owner, refused>>
          \/ owner # 0 /\ Ev.a \in refused /\ owner' = Ev.a /\ refused' = (refused \ {Ev.a}) \cup {owner}
       /\ phase' = "up"
-      /\ UNCHANGED <<closeSeen, closeReturned, pending, bornClosed, stopped, finishing, gen, starget>>
+      /\ UNCHANGED <<closeSeen, closeReturned, pending, bornClosed, stopped, finishing, gen, starget, stopReq, svc>>
 ServeRet == /\ IsEvent("serve_ret") /\ Call("serve") \in pending /\ pending' = pending \ {Call("serve")}
             /\ IF Ev.a \in finishing
                THEN Ev.out # "already_running" /\ finishing' = finishing \ {Ev.a} /\ UNCHANGED <<owner, phase, refused, bornClosed, stopped>>
@@ -53,34 +57,41 @@ ServeRet == /\ IsEvent("serve_ret") /\ Call("serve") \in pending /\ pending' = p
                ELSE /\ owner = Ev.a /\ Ev.out # "already_running"
                     /\ (Ev.out = "closed_error" => closeSeen)
                     /\ (Ev.a \in bornClosed => Ev.out = "closed_error")
+                    /\ (Ev.out = "returned" => stopReq)       \* it does not stop serving on its own
                     /\ owner' = 0 /\ phase' = "idle" /\ bornClosed' = bornClosed \ {Ev.a} /\ stopped' = FALSE /\ UNCHANGED <<refused, finishing>>
-            /\ UNCHANGED <<closeSeen, closeReturned, gen, starget>>
+            /\ UNCHANGED <<closeSeen, closeReturned, gen, starget, stopReq, svc>>
 Put(f, k, v) == [x \in DOMAIN f \cup {k} |-> IF x = k THEN v ELSE f[x]]
 ShutdownCall == /\ IsEvent("shutdown_call") /\ pending' = pending \cup {Call("shutdown")}
                 /\ starget' = Put(starget, Ev.a, IF owner # 0 THEN gen ELSE 0)
-                /\ UNCHANGED <<owner, phase, refused, closeSeen, closeReturned, bornClosed, stopped, finishing, gen>>
+                /\ stopReq' = TRUE
+                /\ UNCHANGED <<owner, phase, refused, closeSeen, closeReturned, bornClosed, stopped, finishing, gen, svc>>
 \* shutdown returns only after serving has fully stopped
 ShutdownRet == /\ IsEvent("shutdown_ret") /\ Call("shutdown") \in pending /\ pending' = pending \ {Call("shutdown")}
                /\ Ev.serving = FALSE
                \* the serve call that was active when this shutdown() was issued is over, even if its own return is not logged yet
                /\ stopped' = (owner # 0 /\ (stopped \/ (Ev.a \in DOMAIN starget /\ starget[Ev.a] = gen)))
-               /\ UNCHANGED <<owner, phase, refused, closeSeen, closeReturned, bornClosed, finishing, gen, starget>>
-CloseCall == /\ IsEvent("close_call") /\ pending' = pending \cup {Call("close")} /\ closeSeen' = TRUE
-             /\ UNCHANGED <<owner, phase, refused, closeReturned, bornClosed, stopped, finishing, gen, starget>>
+               \* ... and what its service_init registered has been torn down
+               /\ ((Ev.a \in DOMAIN starget /\ starget[Ev.a] = gen) => svc = 0)
+               /\ UNCHANGED <<owner, phase, refused, closeSeen, closeReturned, bornClosed, finishing, gen, starget, stopReq, svc>>
+CloseCall == /\ IsEvent("close_call") /\ pending' = pending \cup {Call("close")} /\ closeSeen' = TRUE /\ stopReq' = TRUE
+             /\ UNCHANGED <<owner, phase, refused, closeReturned, bornClosed, stopped, finishing, gen, starget, svc>>
 CloseRet == /\ IsEvent("close_ret") /\ Call("close") \in pending /\ pending' = pending \ {Call("close")}
             /\ \/ /\ Ev.out = "returned" /\ Ev.listening = FALSE /\ closeReturned' = TRUE
                \/ /\ Ev.out = "busy" /\ phase = "setup" /\ UNCHANGED closeReturned      \* refused loudly during the set-up of serve_forever
-            /\ UNCHANGED <<owner, phase, refused, closeSeen, bornClosed, stopped, finishing, gen, starget>>
+            /\ UNCHANGED <<owner, phase, refused, closeSeen, bornClosed, stopped, finishing, gen, starget, stopReq, svc>>
+SvcInit == IsEvent("svc_init") /\ svc' = svc + 1 /\ UNCHANGED <<owner, phase, refused, closeSeen, closeReturned, pending, bornClosed, stopped, finishing, gen, starget, stopReq>>
+SvcDown == IsEvent("svc_down") /\ svc > 0 /\ svc' = svc - 1 /\ UNCHANGED <<owner, phase, refused, closeSeen, closeReturned, pending, bornClosed, stopped, finishing, gen, starget, stopReq>>
 \* quiescent observation: consistent with the history
 Probe == /\ IsEvent("probe") /\ pending \subseteq {c \in pending : c[1] = "serve"}
          /\ (Ev.serving => owner # 0 /\ phase = "up" /\ ~closeReturned)
          /\ (closeReturned => ~Ev.listening /\ ~Ev.serving)
+         /\ (owner = 0 /\ pending = {} => svc = 0)
          /\ UNCHANGED vars
 \* NetworkServerThread.start(): returns once the server is up or its serve_forever() has ended - it has to return
-TStartCall == IsEvent("tstart_call") /\ pending' = pending \cup {Call("tstart")} /\ UNCHANGED <<owner, phase, refused, closeSeen, closeReturned, bornClosed, stopped, finishing, gen, starget>>
-TStartRet == IsEvent("tstart_ret") /\ Call("tstart") \in pending /\ pending' = pending \ {Call("tstart")} /\ UNCHANGED <<owner, phase, refused, closeSeen, closeReturned, bornClosed, stopped, finishing, gen, starget>>
-End == IsEvent("end") /\ pending = {} /\ owner = 0 /\ finishing = {} /\ UNCHANGED vars
-TNext == TStartCall \/ TStartRet \/ ServeCall \/ Up \/ ServeRet \/ ShutdownCall \/ ShutdownRet \/ CloseCall \/ CloseRet \/ Probe \/ End
+TStartCall == IsEvent("tstart_call") /\ pending' = pending \cup {Call("tstart")} /\ UNCHANGED <<owner, phase, refused, closeSeen, closeReturned, bornClosed, stopped, finishing, gen, starget, stopReq, svc>>
+TStartRet == IsEvent("tstart_ret") /\ Call("tstart") \in pending /\ pending' = pending \ {Call("tstart")} /\ UNCHANGED <<owner, phase, refused, closeSeen, closeReturned, bornClosed, stopped, finishing, gen, starget, stopReq, svc>>
+End == IsEvent("end") /\ pending = {} /\ owner = 0 /\ finishing = {} /\ svc = 0 /\ UNCHANGED vars
+TNext == SvcInit \/ SvcDown \/ TStartCall \/ TStartRet \/ ServeCall \/ Up \/ ServeRet \/ ShutdownCall \/ ShutdownRet \/ CloseCall \/ CloseRet \/ Probe \/ End
 ASSUME \A x \in 1..Len(Traces) : TLCSet(x, 0)
 Constr == TLCSet(tid, IF TLCGet(tid) > l THEN TLCGet(tid) ELSE l)
 Post == LET bad == {x \in 1..Len(Traces) : TLCGet(x) <= Len(Traces[x].events)} IN
